@@ -325,6 +325,8 @@ class Gen:
             stmts.append((kind, x, e))
             env[x] = t
         self.protected = set()
+        self.in_try = 0
+        self.no_assign = False
         self.truth_tested = set()
         self.in_loop_guard = False
         self.loop_depth = 0
@@ -626,15 +628,31 @@ class Gen:
                 env[x] = self.decl[x]
         return env
 
-    def block(self, env, depth, budget, top=False):
-        """returns (statements, env after, falls through?)"""
+    def block(self, env, depth, budget, top=False, plain=False):
+        """returns (statements, env after, falls through?); `plain`: observations only (finally clauses)"""
         r = self.r
         out = []
         env = dict(env)
+        if plain:
+            out.append(self.new_probe(("intLit", depth)))
+            for _ in range(budget):
+                x = r.choice(list(env))
+                out += self.uses(x, env[x], env)
+            return out, env, True
         if not top:
             out.append(self.new_probe(("intLit", depth)))      # marks the block as executed
         for _ in range(budget):
             k = r.random()
+            if depth < 3 and r.random() < 0.13 and self.self_cls is None:
+                stm, env, live = self.try_stmt(env, depth)
+                out.append(stm)
+                if not live:
+                    return out, env, False
+                continue
+            if depth > 0 and r.random() < (0.05 if self.in_try else 0.012):
+                out.append(("raise", r.randrange(3)))
+                self.stat("raise")
+                return out, env, False
             if k < 0.22 and depth < 3:
                 c = self.compound_cond(env)
                 if c is None:
@@ -721,6 +739,44 @@ class Gen:
                 x = r.choice(list(env))
                 out += self.uses(x, env[x], env)
         return out, env, True
+
+    def try_stmt(self, env, depth):
+        """try / except (kinds) / [else] / [finally]; handler and finally start from a conservative state: every local
+        assigned in the protected part has its declared type.  Returns (statement, env after, falls through?)"""
+        r = self.r
+        self.stat("try")
+        self.in_try += 1
+        body, eb, lb = self.block(env, depth + 1, r.randint(1, 3))
+        self.in_try -= 1
+        # make sure something can raise in the body
+        if r.random() < 0.7:
+            ints = [x for x, t in env.items() if t == INT]
+            guard = ("lt", ("var", r.choice(ints)), ("intLit", r.choice([1, 2, 3]))) if ints else ("boolLit", True)
+            body.insert(r.randrange(len(body) + 1) if lb else 0,
+                        ("ite", guard, ("raise", r.randrange(3)), ("pass",)))
+        kinds = sorted(r.sample([0, 1, 2], r.choice([1, 1, 2, 3])))
+        eh0 = self.reset_assigned(env, body)
+        hb, eh, lh = self.block(eh0, depth + 1, r.randint(1, 2))
+        for x in list(assigned_vars(seq(body)) & set(env))[:1]:
+            hb = [self.new_probe(("var", x))] + hb
+        if lb and r.random() < 0.35:
+            els, ee, le = self.block(eb, depth + 1, r.randint(1, 2))
+            self.stat("try-else")
+        else:
+            els, ee, le = [], eb, lb
+        fin = None
+        if r.random() < 0.4:
+            ef0 = self.reset_assigned(env, body + hb + els)
+            saved = self.no_assign
+            self.no_assign = True              # a finally clause that assigns locals changes what a pending jump saw
+            fb, _, _ = self.block(ef0, depth + 1, r.randint(1, 2), plain=True)
+            self.no_assign = saved
+            fin = seq(fb)
+            self.stat("finally")
+        stm = ("try", seq(body), kinds, seq(hb), seq(els) if els else ("pass",), fin)
+        live = le or lh
+        after = self.reset_assigned(env, body + hb + els)
+        return stm, after, live
 
     def jump_if(self, env, depth):
         """`if <cond>: … break|continue` — what follows sees the negated condition; (statement, env after) or None"""
@@ -924,6 +980,8 @@ def assigned_vars(s) -> set:
         return assigned_vars(s[2])
     if t == "seq":
         return assigned_vars(s[1]) | assigned_vars(s[2])
+    if t == "try":
+        return assigned_vars(s[1]) | assigned_vars(s[3]) | assigned_vars(s[4]) | (assigned_vars(s[5]) if s[5] is not None else set())
     return set()
 
 
@@ -944,6 +1002,9 @@ def map_stmt(s, fe, fs):
         r = (t, fe(s[1]), s[2], fe(s[3]))
     elif t in ("expr", "ret"):
         r = (t, fe(s[1]))
+    elif t == "try":
+        r = ("try", map_stmt(s[1], fe, fs), s[2], map_stmt(s[3], fe, fs), map_stmt(s[4], fe, fs),
+             map_stmt(s[5], fe, fs) if s[5] is not None else None)
     else:
         r = s
     return fs(r)
